@@ -282,7 +282,7 @@ pub fn run(ctx: &mut Ctx) {
     for (n, ok) in r9::selftest(false) {
         ctx.selftest(&n, ok);
     }
-    ctx.require(&["annex_kat", "len_sweep", "fixed_r_exact", "free_r", "roundtrip", "ref_made_decrypts", "bitflip_pc_byte", "bitflip_c1", "bitflip_c2", "bitflip_c3", "truncated_inside_c1", "truncated_inside_c3", "truncated_body", "id_changed", "c1_zero_zero", "c1_offcurve_y_plus_1", "c1_offcurve_random", "pc_byte_illegal_valid_tag", "c1_other_point", "c1_coordinate_plus_p_alias", "c3_zeroed", "msg_len=255", "msg_len=1", "id_empty", "encryptor_has_public_key_only", "interleaved_keys_decrypt", "k1_all_zero_retry", "ke=H1(id)_doubling_in_QB"]);
+    ctx.require(&["annex_kat", "len_sweep", "fixed_r_exact", "free_r", "roundtrip", "ref_made_decrypts", "bitflip_pc_byte", "bitflip_c1", "bitflip_c2", "bitflip_c3", "truncated_inside_c1", "truncated_inside_c3", "truncated_body", "id_changed", "c1_zero_zero", "c1_offcurve_y_plus_1", "c1_offcurve_random", "pc_byte_illegal_valid_tag", "c1_other_point", "c1_coordinate_plus_p_alias", "c3_zeroed", "msg_len=255", "msg_len=1", "id_empty", "encryptor_has_public_key_only", "interleaved_keys_decrypt", "k1_all_zero_retry", "ke=H1(id)_doubling_in_QB", "crafted_valid_c1_decrypts"]);
     let pr = r9::params();
     if ctx.shard == 0 {
         let ke = r9::hexn("0001EDEE3778F441F8DEA3D9FA0ACC4E07EE36C93F9A08618AF4AD85CEDE1C22");
@@ -293,6 +293,44 @@ pub fn run(ctx: &mut Ctx) {
             expect_decrypt(ctx, &key, &ke, b"Bob", &ct, b"Chinese IBE standard", "annex_ciphertext_decrypts");
         }
         ctx.sample(json!({"annex": {"ke": "0001EDEE..1C22", "id": "Bob", "msg": "Chinese IBE standard", "r": "0000AAC0..785C", "C3": "BA672387..F367"}}));
+    }
+    // --- reference-made ciphertexts whose C1 is a VALID point crafted so that the addition x^3 + 5 of the on-curve test
+    // lands on a carry / reduction boundary: they must decrypt
+    {
+        let mut pc = ctx.prng("crafted_pts");
+        let reps = ctx.n(1, 6);
+        for _ in 0..reps {
+            let sub = pc.next();
+            let mut q = Prng::new(sub, "cp");
+            for (name, pt) in crafted_g1_points(&mut q, 1, ctx.shard as u64, ctx.nshards as u64) {
+                let ke = rand_scalar(&mut q, &(&pr.n - 1u32));
+                let idl = 1 + q.below(12) as usize;
+                let id = q.bytes(idl);
+                let mlen = 1 + q.below(60) as usize;
+                let msg = q.bytes(mlen);
+                let (Some(de), Some(key)) = (r9::extract_enc_key(&ke, &id, r9::HID_ENC), enc_key_from_ref(&ke, &id, r9::HID_ENC)) else { continue };
+                let Some(w) = r9::pairing(&pt, &de) else { continue };
+                let mut z = r9::pt_bytes(&pt);
+                z.extend_from_slice(&r9::f12bytes(&w));
+                z.extend_from_slice(&id);
+                let k = r3::kdf(&z, msg.len() + 32);
+                let (k1, k2) = k.split_at(msg.len());
+                if k1.iter().all(|&b| b == 0) {
+                    continue;
+                }
+                let c2: Vec<u8> = msg.iter().zip(k1.iter()).map(|(a, b)| a ^ b).collect();
+                let mut ct = vec![0x04];
+                ct.extend_from_slice(&r9::pt_bytes(&pt));
+                ct.extend_from_slice(&r9::mac(k2, &c2));
+                ct.extend_from_slice(&c2);
+                if r9::decrypt(&de, &id, &ct).as_deref() != Some(&msg[..]) {
+                    ctx.violation("harness:crafted-c1-ciphertext-rejected-by-reference", json!({"class": name}));
+                    continue;
+                }
+                ctx.class(&format!("crafted:{}", name));
+                expect_decrypt(ctx, &key, &ke, &id, &ct, &msg, "crafted_valid_c1_decrypts");
+            }
+        }
     }
     // --- crafted r for which K1 of a 1-byte message is all zero: the standard's retry condition (A6)
     let kz = crate::corpus::load("sm9_k1_zero.json");
